@@ -101,6 +101,13 @@ class Codec:
             kk, e, n = self.generic_of(coll.src)
             self.generic[key] = (kk, coll.value, n)
             return self.generic[key]
+        elif isinstance(coll, SetItems):
+            sv = coll.s
+            n = c.fresh("set_len", IntS)
+            c.assume(n >= 0)
+            kt = c.fresh("gen_member", sv.ty.elem.sort())
+            c.assume(z3.Select(sv.t, kt))
+            elem = wrap(sv.ty.elem, kt)
         elif isinstance(coll, DictItems):
             d = coll.d
             gkey = ("dictgen", id(d))
@@ -189,9 +196,17 @@ class Codec:
                 self.generic[key] = SMapped(inner, STuple([SInt(k + it.payload[1].t), elem]))
             return self.generic[key]
         if isinstance(it, ZVal) and isinstance(it.ty, TSet):
+            # iteration order of a set is not a function of its value: recorded (an obligation failure
+            # for writers whose bytes must be deterministic); the round trip itself is order-independent
             self.order_events.append(("set-order", "set"))
-            raise Unsupported("writer iterates a set (order is not a function of the value)")
+            return self.set_items(it)
         raise Unsupported(f"lock-step over {it!r}")
+
+    def set_items(self, sv):
+        key = ("setitems", id(sv.cell))
+        if key not in self.generic:
+            self.generic[key] = SetItems(sv)
+        return self.generic[key]
 
     def dict_items(self, d, what):
         key = ("items", id(d), what)
@@ -248,6 +263,13 @@ class DictItems(V):
     def __init__(self, d, what):
         self.d = d
         self.what = what
+
+
+class SetItems(V):
+    kind = "setitems"
+
+    def __init__(self, s):
+        self.s = s
 
 
 class SortedKeys(V):
